@@ -121,7 +121,7 @@ CHECKS["C12"] = dict(
     text="Logs of sizes {1,2,255,256,257,511,513,700} are rendered by the real sequencer; the harness keeps the leaf list and the verified tree head. An in-process HTTP server serves a copy with one tampering per case (17 kinds over hash and data tiles, incl. edits of non-Merkle-covered fields that must be allowed to pass, and edits with a recomputed level-0 tile) and the client is driven through Entries/AllEntries from start in {0,1,255,256,N-1,N}, Entry(i), CheckInclusion with a valid SCT and 9 altered ones (log id, timestamp, signature, index of another entry, SCT of another entry with this index, extra/absent extension, trailing byte, version) and Checkpoint() over 9 served variants. Oracle: every entry handed to the caller equals the truth in all Merkle-covered fields; a confirmed SCT matches the authentic leaf under independent signature verification; a returned checkpoint verifies independently under the configured key; untampered logs must be fully readable (so refusing everything cannot pass).",
     note="One known finding (F3): a consistent edit of a full data tile and its level-0 hash tile is not detected because of a defect in golang.org/x/mod's verifying tile reader; it is reported as KNOWN-FINDING, all other violation ids still fail the check. Gzip-level corruption costs a client timeout per case and is sampled sparsely. Trusted: harness truth, reference encoders, ct-go verifier.",
     design_ref="DESIGN.md section 3, C12",
-    parts=[P("client", "^TestC12Client$", shards=(8, 8), timeout=(1200, 14400))],
+    parts=[P("client", "^TestC12Client$", shards=(8, 8), timeout=(1200, 14400)), P("indexmismatch", "^TestC12IndexMismatch$", shards=(1, 4))],
     floor=500,
 )
 
